@@ -40,6 +40,7 @@ from ._c15_util import (
     all_ctors, analysis_view, anchors, bound_args, cancel_and_gather, ctor_kind, guarded_by_emptiness, loop_binding, match_send,
     method_params, name_delta, result_fields, self_calls, set_growth, set_term, show_term,
     subscript_atom, typed_param,
+    alias_closure, callee_param_changes, inplace_changes, shared_names,
 )
 
 BM = "microgrid._power_distributing._component_managers._battery_manager:BatteryManager"
@@ -278,6 +279,7 @@ class BatteryRoles:
         else:
             self.pr_call, perm = _passthrough(prog, self.sd, self.pr.name)
         j_pow, j_set = perm[i_pow], perm[i_set]
+        self.sd_set_pos, self.pr_set_pos = i_set, j_set   # where the failed set sits in the returned pairs
         # ... into _parse_result's returned pair
         rets = [n for n in body_walk(self.pr.node) if isinstance(n, ast.Return)]
         got: set[tuple[str, str]] = set()
@@ -838,6 +840,127 @@ def check_all(run: Run, prog: Program, roles: BatteryRoles, loops_info: dict[str
               node=pv.node, file=pv.file, instance=f"{pv.qual}: result loop walks the created tasks")
 
 
+# ---------------------------------------------------------------------------------------------
+SET_FIELDS = ("succeeded_components", "failed_components")
+
+
+def check_frozen(run: Run, prog: Program, roles: BatteryRoles) -> None:
+    """C15.FROZEN: the component sets of a result are OBJECTS, and the same objects are handed on (to the
+    status tracker, back to the caller).  What the other rules decide -- succeeded == addressed - failed,
+    failed == what the result loop collected -- is decided on the expressions that compute them; it
+    only holds for what is sent if nobody changes those objects in place afterwards.  So, for every variable
+    whose object is stored in `succeeded_components=` / `failed_components=` (or is handed back as the failed
+    set by the result parser / the sending routine), and for every may-alias of it:
+
+      * no in-place change (`-=`, `|=`, `&=`, `^=`, add/update/discard/remove/pop/clear/..._update) on a path
+        that starts at the construction of the result / the `return` -- rebinding (`s = s - x`) or changing a
+        copy is fine, that does not touch the reported object;
+      * before that point only growth inside the result loop is a way of building the set (that growth is
+        judged by C15.FAIL / C15.SETS); any other in-place change alters a value the other rules have
+        already read off its defining expression;
+      * a repository function that receives the object (followed through two calls) does not change its
+        parameter in place;
+      * no method of the two managers writes / changes `<result>.succeeded_components` /
+        `<result>.failed_components` through the result object."""
+    pv = _norm(prog, anchors(prog).get("pv.api"))
+    todo: list[tuple[FuncInfo, str]] = []
+    handoffs: list[tuple[FuncInfo, str]] = []   # (repository function, parameter) that receive a reported set
+    setattr(run, "c15_handoffs", handoffs)
+    for fn, role in ((roles.dp, "dist"), (roles.sd, "send"), (roles.pr, "parse"), (pv, "pv")):
+        if fn.qual not in [f.qual for f, _r in todo]:
+            todo.append((fn, role))
+    for fn, role in todo:
+        run.analysed(fn.qual)
+        cfg = CFG(fn.node, fn.file)
+        # variable -> [(CFG node where its object is reported, as what)]
+        reported: dict[str, list[tuple[int, str]]] = {}
+        for c in all_ctors(fn.node):
+            kind, f = ctor_fields(prog, fn, c)
+            for k in SET_FIELDS:
+                for nm in sorted(shared_names(f.get(k))):
+                    reported.setdefault(nm, []).append((_site(cfg, fn, c), f"{kind}.{k}"))
+        if role in ("send", "parse"):
+            pos = roles.sd_set_pos if role == "send" else roles.pr_set_pos
+            for r in body_walk(fn.node):
+                if isinstance(r, ast.Return) and isinstance(r.value, ast.Tuple) and len(r.value.elts) == 2:
+                    for nm in sorted(shared_names(r.value.elts[pos])):
+                        for x in cfg.nodes_of(r):
+                            reported.setdefault(nm, []).append((x, "the returned failed set"))
+        # the result loop of this function (if it has one): the only place where a reported set is built in place
+        body: set[int] = set()
+        if nodes_with_call(cfg, _is_result_call):
+            body = result_loop(cfg, fn.qual)[4]
+        changes = [(c, recv.id, text, grows) for c, recv, text, grows in inplace_changes(fn.node)
+                   if isinstance(recv, ast.Name)]
+        for nm, sites in sorted(reported.items()):
+            what = "/".join(sorted({w for _x, w in sites}))
+            aliases = alias_closure(fn.node, {nm})
+            bad = 0
+            for c, recv, text, grows in changes:
+                if recv not in aliases:
+                    continue
+                at = cfg.node_containing(c)
+                via = f"`{recv}`" + (f" (an alias of `{nm}`)" if recv != nm else "")
+                wit = None
+                for x, _w in sites:
+                    wit = wit or cfg.path(x, at, include_src=False)
+                if wit is not None or not at:
+                    bad += 1
+                    run.violation(
+                        "C15.FROZEN", fn.qual, c,
+                        f"`{text}` changes {via} in place after its object was stored as {what}: the result that is "
+                        "sent afterwards shares that object, so it no longer lists the components that were "
+                        "addressed (a component can end up in neither set, or in both) -- rebind to a new set "
+                        "(`s = s - x`) or hand on a copy instead; the same holds for add/discard/update/clear/|=/&= "
+                        "on any alias of a reported set", node=c, file=fn.file, path=cfg.describe_path(wit))
+                elif not (grows and body and all(x in body for x in at)):
+                    bad += 1
+                    run.violation(
+                        "C15.FROZEN", fn.qual, c,
+                        f"`{text}` changes {via} in place outside the result loop before it is reported as {what}: the "
+                        "set that is reported is not the one its defining expression (addressed - failed / collected per "
+                        "failed call) says it is", node=c, file=fn.file)
+            if not bad:
+                run.ok("C15.FROZEN", f"{fn.qual}: the object of `{nm}` ({what}) is only changed in place while the "
+                                     "result loop builds it")
+        # ... and the functions that are handed the object leave it alone
+        shared_all = alias_closure(fn.node, set(reported))
+        for c in ast.walk(fn.node):
+            if not isinstance(c, ast.Call) or not shared_all:
+                continue
+            seen, hits = callee_param_changes(prog, fn, c, shared_all)
+            for tgt, hc, text in hits:
+                run.violation("C15.FROZEN", tgt.qual, hc,
+                              f"`{text}` changes in place a set that {fn.name} has stored in the result it reports "
+                              f"(passed by `{u(c.func)}(..)`): the result that is sent shares the object",
+                              node=hc, file=tgt.file)
+            if seen and not hits:
+                for q in sorted({f"{t.qual}({p})" for t, p in seen}):
+                    run.ok("C15.FROZEN", f"{fn.qual}: {q} receives a reported set and does not change it in place")
+            handoffs.extend(seen[:1])
+    # through the result object itself
+    for cq in (BM, PV):
+        cls = prog.cls(cq)
+        bad = 0
+        for m in cls.methods.values():
+            found: list[tuple[ast.AST, str]] = [
+                (c, text) for c, recv, text, _g in inplace_changes(m.node)
+                if isinstance(recv, ast.Attribute) and recv.attr in SET_FIELDS]
+            for n in body_walk(m.node):
+                tgts = n.targets if isinstance(n, ast.Assign) else [n.target] if isinstance(
+                    n, (ast.AugAssign, ast.AnnAssign)) else n.targets if isinstance(n, ast.Delete) else []
+                for t in tgts:
+                    if isinstance(t, ast.Attribute) and t.attr in SET_FIELDS and not any(n is c for c, _t in found):
+                        found.append((n, u(n)[:60]))
+            for c, text in found:
+                bad += 1
+                run.violation("C15.FROZEN", m.qual, c,
+                              f"`{text}` edits the component set of a result through the result object after it was "
+                              "constructed: the sets are no longer the ones the accounting rules decided", node=c, file=m.file)
+        if not bad:
+            run.ok("C15.FROZEN", f"{cls.qual}: no method edits <result>.succeeded_components / .failed_components")
+
+
 CONTROLS = [
     ("continue in one handler", "microgrid._power_distributing._component_managers._pv_inverter_manager._pv_inverter_manager",
      "                _logger.warning(\n                    \"Timeout while setting power to PV inverter %s\", component_id\n                )\n",
@@ -867,7 +990,58 @@ CONTROLS = [
     ("succeeded set not reduced by failed", "microgrid._power_distributing._component_managers._battery_manager",
      "succeed_batteries = set(battery_distribution.keys()) - failed_batteries",
      "succeed_batteries = set(battery_distribution.keys())", "C15.SETS"),
+    # (the text that is replaced names every local the inserted statement uses: after a renaming the patch no
+    # longer applies and the control is skipped, instead of inserting a statement about some other variable)
+    ("reported succeeded set shrunk in place before the tracker is told",
+     "microgrid._power_distributing._component_managers._battery_manager",
+     "        await asyncio.gather(\n            *[\n                self._component_pool_status_tracker.update_status(\n"
+     "                    succeed_batteries, failed_batteries\n",
+     "        succeed_batteries.difference_update(\n"
+     "            [b for b in succeed_batteries if not self._bat_invs_map.get(b)]\n        )\n"
+     "        await asyncio.gather(\n            *[\n                self._component_pool_status_tracker.update_status(\n"
+     "                    succeed_batteries, failed_batteries\n",
+     "C15.FROZEN"),
+    ("PV succeeded set cut down in place after the result loop",
+     "microgrid._power_distributing._component_managers._pv_inverter_manager._pv_inverter_manager",
+     "                succeeded_components.add(component_id)\n                continue\n\n"
+     "            failed_components.add(component_id)\n            failed_power += allocations[component_id]\n\n"
+     "        if failed_components:\n",
+     "                succeeded_components.add(component_id)\n                continue\n\n"
+     "            failed_components.add(component_id)\n            failed_power += allocations[component_id]\n\n"
+     "        succeeded_components &= self._component_data_caches.keys()\n"
+     "        if failed_components:\n",
+     "C15.FROZEN"),
 ]
+
+
+def handoff_controls(run: Run, prog: Program) -> None:
+    """Generated controls for the callee clause of C15.FROZEN: for every repository function that the analysed
+    tree hands a reported set to, an in-memory variant of that function that starts by emptying the parameter
+    must be reported (the variant is derived from the callee found by the rule, not from a text fragment, so it
+    follows the code through renamings and is simply absent when nothing is handed on)."""
+    if run.violations:
+        return
+    done: set[str] = set()
+    for tgt, pname in getattr(run, "c15_handoffs", []):
+        if tgt.qual in done:
+            continue
+        done.add(tgt.qual)
+        body = [st for st in tgt.node.body if not (isinstance(st, ast.Expr) and isinstance(st.value, ast.Constant)
+                                                   and isinstance(st.value.value, str))]
+        if not body:
+            continue
+        lines = tgt.module.source.split("\n")
+        first = body[0]
+        lines.insert(first.lineno - 1, " " * first.col_offset + f"{pname}.clear()")
+        scratch = Run(run.prop_id, run.tier, run.seed)
+        name = f"{tgt.name} empties the reported set it is handed ({pname})"
+        try:
+            p2 = Program(overrides={tgt.module.name: "\n".join(lines)})
+            check_frozen(scratch, p2, BatteryRoles(p2))
+            got = [v for v in scratch.violations if v.rule == "C15.FROZEN" and v.function == tgt.qual]
+            run.control(name, bool(got), got[0].message[:120] if got else "no C15.FROZEN report in the callee")
+        except AnalysisError as exc:
+            run.control(name, True, f"analysis failed closed: {exc}")
 
 
 def check_pv_pairing(run: Run, prog: Program, info: dict[str, dict[str, str]]) -> None:
@@ -994,6 +1168,7 @@ def run_rules(run: Run, prog: Program) -> None:
     check_pv_pairing(run, prog, info)
     check_sets(run, prog, roles)
     check_all(run, prog, roles, info)
+    check_frozen(run, prog, roles)
 
 
 def check(run: Run, prog: Program, tier: str) -> str:
@@ -1004,7 +1179,11 @@ def check(run: Run, prog: Program, tier: str) -> str:
     run.rule("C15.SETS", "succeeded and failed component sets are complementary by construction")
     run.rule("C15.ALL", "one set_power per allocation entry; timed-out calls are cancelled and "
              "awaited before results are read; parsed map == sent map")
+    run.rule("C15.FROZEN", "the set objects stored in a result (and handed on to the status tracker / back to the "
+             "caller) are not changed in place once computed: no in-place set operation on them or an alias after "
+             "the result is built, none outside the result loop before, none in a callee that receives them")
     run_rules(run, prog)
+    run.floor("C15.FROZEN", 4)
     run.floor("C15.ID", 10)
     run.floor("C15.FAIL", 20)
     run.floor("C15.SETS", 5)
@@ -1012,6 +1191,7 @@ def check(run: Run, prog: Program, tier: str) -> str:
     from ..engine.controls import run_controls
 
     run_controls(run, CONTROLS, run_rules, tier)
+    handoff_controls(run, prog)
     run.assume("unit wrappers (Power.from_watts / as_watts) are value-preserving; a field whose "
                "only writers are zero constants is zero")
     run.undecided("the numeric content of the allocations (C01 for batteries; for PV which inverter gets how "
